@@ -54,7 +54,7 @@ pub fn c09(_tier: Tier) -> Vec<Space> {
 }
 
 pub fn c10(tier: Tier) -> Vec<Space> {
-    let c = cfg("C10", false);
+    let c = cfg("C10", true);
     let mut v = vec![
         field_full("MSG-FIELD(scaled<=18)", c, variants(), sel_scaled, 1, 18),
         field_wide("MSG-FIELD-WIDE(coord)", c, variants(), sel_scaled, 19, 2, 2),
@@ -84,7 +84,7 @@ fn complete_coords(c: Cfg, v: &mut Vec<Space>, types: &[u8]) {
 }
 
 pub fn c11(tier: Tier) -> Vec<Space> {
-    let c = cfg("C11", false);
+    let c = cfg("C11", true);
     let mut v = vec![
         field_full("MSG-FIELD(optional<=18)", c, variants(), sel_scaled_opt, 1, 18),
         field_wide("MSG-FIELD-WIDE(coord)", c, variants(), sel_scaled, 19, 2, 2),
@@ -99,7 +99,7 @@ pub fn c11(tier: Tier) -> Vec<Space> {
 }
 
 pub fn c12(_tier: Tier) -> Vec<Space> {
-    let c = cfg("C12", false);
+    let c = cfg("C12", true);
     vec![
         field_full("MSG-ENUM", c, variants(), sel_enum, 1, 8),
         super::c12conv::ship_type_conversions(),
@@ -152,7 +152,7 @@ pub fn c15(_tier: Tier) -> Vec<Space> {
 }
 
 pub fn c16(_tier: Tier) -> Vec<Space> {
-    let c = cfg("C16", false);
+    let c = cfg("C16", true);
     vec![radio(c), dense(c, variants()), field_triples(c, variants())]
 }
 
